@@ -44,7 +44,8 @@ type Script struct {
 	After      []int  `json:"after"`      // lengths of chunks persisted by a second life of the agent before recovery
 	// ids of the chunks in the order in which they are accepted (default 1..n): at a stop older chunks held in memory are
 	// written after newer ones that were spilled on arrival, so the interrupted write need not be the newest file
-	IDs []int `json:"ids"`
+	IDs      []int `json:"ids"`
+	AfterIDs []int `json:"afterIds"` // the same for the second life (default: the next free ids in order)
 }
 
 func chunkData(id int, size int) []byte {
@@ -273,8 +274,16 @@ func RunScript(sc Script, work string, self string) *vtrace.Tracer {
 		for i, l := range sc.After {
 			lens2[i] = strconv.Itoa(l * sc.Unit)
 		}
+		ids2 := ""
+		if len(sc.AfterIDs) == len(sc.After) {
+			parts := make([]string, len(sc.AfterIDs))
+			for i, v := range sc.AfterIDs {
+				parts[i] = strconv.Itoa(v)
+			}
+			ids2 = strings.Join(parts, ",")
+		}
 		code, stderr = runChild(tr, self, "cf-victim", "-dir", dir, "-lens", strings.Join(lens2, ","), "-victim", "0",
-			"-unit", strconv.Itoa(sc.Unit), "-first", strconv.Itoa(len(sc.Lens)+1))
+			"-unit", strconv.Itoa(sc.Unit), "-first", strconv.Itoa(len(sc.Lens)+1), "-ids", ids2)
 		if code == 0 {
 			tr.Emit("VictimEnd", "killed", false)
 		} else {
